@@ -28,9 +28,10 @@ ASSUMPTIONS = [
 
 def _mat(case):
     if "W" in case:
-        return np.array([[float(fr(x)) for x in row] for row in case["W"]], dtype=float)
-    from props.gcommon import DTYPES
-    return np.array(case["A"], dtype=DTYPES.get(case.get("dtype", "int")))
+        from props.gcommon import relayout
+        return relayout(np.array([[float(fr(x)) for x in row] for row in case["W"]], dtype=float))
+    from props.gcommon import DTYPES, relayout
+    return relayout(np.array(case["A"], dtype=DTYPES.get(case.get("dtype", "int"))))
 
 
 # --------------------------------------------------------------------------- oracle pieces
